@@ -8,7 +8,10 @@ repo = os.environ.get("PV_REPO", "/repo")
 for g, k in py2coq.KERNELS.items():
     path = os.path.join(HERE, "coq", k["gen"])
     os.makedirs(os.path.dirname(path), exist_ok=True)
-    text = py2coq.translate(g, repo)
+    try:
+        text = py2coq.translate(g, repo)
+    except Exception as e:      # the translator refuses the current source: the checks tied to this group report it
+        text = "(* translation of kernel group %s refused: %r *)\n" % (g, e)
     if not os.path.exists(path) or open(path).read() != text:
         open(path, "w").write(text)
     print("generated", k["gen"])
